@@ -18,6 +18,7 @@ import (
 	"deps.dev/util/resolve/verifh/internal/iso"
 	"deps.dev/util/resolve/verifh/internal/known"
 	"deps.dev/util/resolve/verifh/internal/oracle"
+	"deps.dev/util/semver"
 	"pgregory.net/rapid"
 )
 
@@ -90,6 +91,7 @@ func excluded(ex map[string]bool, name string) bool {
 
 type modelStats struct {
 	conflicts, exclusionsHit, mgmtApplied, ranges int
+	stalePreference                               int // preference differences explained by requirements of versions outside the graph
 	// selfRef: some followed declaration names the root's own artifact with
 	// another version. The resolver answers those with an error
 	// (incompatible requirements / version not found) rather than a graph, so
@@ -314,6 +316,136 @@ func predicates(client *resolve.LocalClient, g *resolve.Graph, st *modelStats) (
 			}
 			if s, _ := e.Type.GetAttr(dep.Scope); s == "provided" {
 				return fmt.Sprintf("transitive edge %s -> %s has scope provided", g.Nodes[e.From].Version.Name, to.Name), "provided dependencies are followed only from the root", nil
+			}
+		}
+	}
+	// 9. ordered preference, as documented on the resolver's version choice:
+	// among the requirements met for an artifact in breadth-first order (the
+	// order of the graph's edges), a soft version that lies inside every range
+	// wins at its position, and the first range prefers, at its position, the
+	// highest listed version inside every range ({1.0, 2.0} -> 1.0;
+	// {1.0, [2.0,3.0]} -> 3.0; {1.0, 2.0, [2.0,3.0]} -> 2.0).
+	if os.Getenv("C07_NO_PREFERENCE") == "" {
+		perKey := map[artKey][]string{}
+		var keyOrder []artKey
+		// breadth-first order: nodes in order of discovery from the root, the
+		// out-edges of a node in the order the graph lists them
+		outOf := map[resolve.NodeID][]resolve.Edge{}
+		for _, e := range g.Edges {
+			outOf[e.From] = append(outOf[e.From], e)
+		}
+		var bfsEdges []resolve.Edge
+		seenNode := map[resolve.NodeID]bool{0: true}
+		for queue := []resolve.NodeID{0}; len(queue) > 0; queue = queue[1:] {
+			for _, e := range outOf[queue[0]] {
+				bfsEdges = append(bfsEdges, e)
+				if !seenNode[e.To] {
+					seenNode[e.To] = true
+					queue = append(queue, e.To)
+				}
+			}
+		}
+		for _, e := range bfsEdges {
+			k := keyOf(e)
+			if _, ok := perKey[k]; !ok {
+				keyOrder = append(keyOrder, k)
+			}
+			perKey[k] = append(perKey[k], e.Requirement)
+		}
+		for _, k := range keyOrder {
+			reqs := perKey[k]
+			var ranges []*semver.Constraint
+			hasRange := false
+			for _, r := range reqs {
+				if isRange(r) {
+					c, err := semver.Maven.ParseConstraint(r)
+					if err != nil {
+						hasRange = false
+						ranges = nil
+						break
+					}
+					ranges = append(ranges, c)
+					hasRange = true
+				}
+			}
+			if !hasRange {
+				continue
+			}
+			inAll := func(v string) bool {
+				for _, c := range ranges {
+					if !c.Match(v) {
+						return false
+					}
+				}
+				return true
+			}
+			listed, err := client.Versions(context.Background(), resolve.PackageKey{System: resolve.Maven, Name: k.name})
+			if err != nil {
+				continue
+			}
+			best := ""
+			for _, v := range listed {
+				if inAll(v.Version) && (best == "" || semver.Maven.Compare(v.Version, best) > 0) {
+					best = v.Version
+				}
+			}
+			expected := ""
+			seenRange := false
+			for _, r := range reqs {
+				if isRange(r) {
+					if !seenRange && best != "" {
+						expected = best
+						break
+					}
+					seenRange = true
+					continue
+				}
+				if inAll(r) {
+					expected = r
+					break
+				}
+			}
+			if expected == "" && best != "" && !seenRange {
+				expected = best
+			}
+			if expected != "" && ver[k] != expected && semver.Maven.Compare(ver[k], expected) != 0 {
+				// Requirements met in an earlier pass survive the re-resolution
+				// even when the version that made them is no longer in the graph
+				// (as Maven's own conflict resolution keeps range constraints of
+				// losing nodes): a requirement of a version outside the graph that
+				// rules the expected version out, or that names the selected one,
+				// explains the difference.
+				inGraph := map[resolve.VersionKey]bool{}
+				for _, n := range g.Nodes {
+					inGraph[n.Version] = true
+				}
+				explained := false
+				for pk, vs := range client.PackageVersions {
+					for _, v := range vs {
+						if inGraph[v.VersionKey] || explained {
+							continue
+						}
+						rs, _ := client.Requirements(context.Background(), v.VersionKey)
+						for _, r := range rs {
+							if artOf(r) != k {
+								continue
+							}
+							if isRange(r.Version) {
+								if c, err := semver.Maven.ParseConstraint(r.Version); err == nil && !c.Match(expected) {
+									explained = true
+								}
+							} else if semver.Maven.Compare(r.Version, ver[k]) == 0 {
+								explained = true
+							}
+						}
+					}
+					_ = pk
+				}
+				if explained {
+					st.stalePreference++
+					continue
+				}
+				return fmt.Sprintf("artifact %v: requirements in breadth-first order %q select %s; the documented preference gives %s", k, reqs, ver[k], expected), "first soft version inside every range, the first range preferring the highest listed version inside every range", nil
 			}
 		}
 	}
